@@ -35,7 +35,8 @@ def lockPolicyText : String :=
 /-- replays without a lock-order edge of the current table behind them: the race / settled-state clauses (evidence, not
     theorem) and the regression scenarios of repaired defects -/
 def raceScenarios : List String := ["cc-self-removePartition", "race-rejected-applications-map",
-  "orphan-allocation-app-removed-while-allocating", "panic-usertracker-removed-while-scheduling"]
+  "orphan-allocation-app-removed-while-allocating", "panic-usertracker-removed-while-scheduling",
+  "race-root-max-shared-with-partition-total"]
 
 def lockStep (j : Json) : Except String String := do
   let op ← (fld j "op") >>= jStr
